@@ -5,8 +5,10 @@
 #include <stdint.h>
 #include <string.h>
 
+#include <algorithm>
 #include <string>
 #include <type_traits>
+#include <unordered_set>
 #include <vector>
 
 #include "Encoding.hh"
@@ -218,6 +220,27 @@ inline void lane_product(const std::vector<uint8_t>& lanes, int w, F&& f) {
     }
     if (i == w) break;
   }
+}
+// 2^k-1, 2^k, 2^k+1 and their negatives for every k below the width (two's complement, masked)
+inline std::vector<uint64_t> boundary_values(int w) {
+  std::vector<uint64_t> v;
+  for (int k = 0; k < 8 * w; k++) {
+    uint64_t p = 1ull << k;
+    for (uint64_t x : {p - 1, p, p + 1}) {
+      v.push_back(x & maskw(w));
+      v.push_back((0 - x) & maskw(w));
+    }
+  }
+  return v;
+}
+// removes repeated values, keeping the first occurrence (cases stay pairwise distinct)
+inline void dedupe(std::vector<uint64_t>& vals) {
+  std::unordered_set<uint64_t> seen;
+  seen.reserve(vals.size() * 2);
+  size_t o = 0;
+  for (uint64_t x : vals)
+    if (seen.insert(x).second) vals[o++] = x;
+  vals.resize(o);
 }
 inline std::vector<uint64_t> float_specials(int w) {
   if (w == 4)
